@@ -11,8 +11,10 @@ func ProfileFor(prop string) Profile {
 		p.WFaultPass = 40
 	case "midset":
 		p.WMidSet = 50
+		p.PairWrites = 35
 	case "unobs":
 		p.WMidSet = 50
+		p.PairWrites = 25
 		p.UnobsWrites = true
 		p.WUnobserve = 14
 	case "binds":
@@ -31,6 +33,18 @@ func ProfileFor(prop string) Profile {
 	case "limit":
 		p.MaxHeight = 6
 		p.WBind = 25
+	case "alwaysfaults":
+		// every history starts with an always node feeding a function node that is observed and
+		// has been computed once (so that later passes recompute it directly after the always node)
+		p.Prefix = []Op{{K: "NewVar", V: 2}, {K: "NewAlways", A: 0}, {K: "NewMap", F1: Fn1{2, 1}, A: 1}, {K: "Observe", A: 2}, {K: "Stabilize"}}
+		p.WFaultPass = 55
+		p.AlwaysShare = 18
+		p.WBind = 8
+		p.WStabilize = 28
+	case "sentinel":
+		p.Sentinels = 14
+		p.WBind = 10
+		p.WUnobserve = 12
 	case "bind2":
 		p.Bind2 = 60
 		p.WBind = 40
@@ -41,6 +55,25 @@ func ProfileFor(prop string) Profile {
 		p.WBind = 35
 		p.WSet = 32
 		p.WObserve = 16
+	case "widekids":
+		// one var feeding 66 observed maps: its dependent list is past the edge index threshold;
+		// then churn: unobserve / re-observe / unobserve again, writes and passes
+		p.Prefix = []Op{{K: "NewVar", V: 1}}
+		for i := 0; i < 66; i++ {
+			p.Prefix = append(p.Prefix, Op{K: "NewMap", F1: Fn1{1, i % 7}, A: 0})
+		}
+		for i := 0; i < 66; i++ {
+			p.Prefix = append(p.Prefix, Op{K: "Observe", A: 1 + i})
+		}
+		p.Prefix = append(p.Prefix, Op{K: "Stabilize"})
+		p.Ops = len(p.Prefix) + 24
+		p.WNew = 2
+		p.WObserve = 30
+		p.WUnobserve = 34
+		p.WSet = 14
+		p.WStabilize = 16
+		p.WAddRemove = 0
+		p.Wide = true
 	case "wide":
 		p.Wide = true
 		p.MapNShare = 35
